@@ -55,6 +55,28 @@ class Check:
             name, tl["distinct"], tl["generated"], tl["depth"], len(invariants), len(properties), tl["wall_s"]))
         return tl
 
+    def mc_sim(self, name, base, consts, invariants=(), properties=(), constraint="Constr", num=200, depth=40, workers=8, timeout=600):
+        """Deep random walks of the model (tlc -simulate) with every invariant / action property evaluated on every state:
+        depths the exhaustive configurations cannot reach."""
+        import re
+        cfg = ["INIT Init", "NEXT Next"] + (["CONSTRAINT " + constraint] if constraint else [])
+        cfg += ["INVARIANT " + i for i in invariants] + ["PROPERTY " + p for p in properties]
+        tl, text = core.tlc_check("%s_%s" % (self.prop, name), base, consts, cfg, workers=workers, timeout=timeout,
+                                  extra=("-simulate", "num=%d" % num, "-depth", str(depth)))
+        if "is violated" in text or "Error:" in text:
+            raise ToolError("%s: the specification violates a clause on a random walk:\n%s" % (name, text[-3000:]))
+        m = re.search(r"The number of states generated: (\d+)", text)
+        n = int(m.group(1)) if m else 0
+        tr = re.findall(r"(\d+) traces generated", text)
+        if n == 0 and not tl["timed_out"]:
+            raise ToolError("%s: simulation produced no states:\n%s" % (name, text[-1500:]))
+        self.states += n
+        self.transitions += n
+        self.stages.append({"stage": name, "kind": "tlc-simulate", "states_checked": n, "walks": int(tr[-1]) if tr else None, "depth": depth,
+                            "invariants": list(invariants), "action_properties": list(properties), "wall_s": tl["wall_s"]})
+        log("[%s] random walks of the model: %d states checked (depth %d), %d invariants + %d action properties hold (%.1fs)" % (
+            name, n, depth, len(invariants), len(properties), tl["wall_s"]))
+
     def gen(self, name, base, consts, replayer, rargs, cfg=("INIT GInit", "NEXT GNext", "INVARIANT Emit", "CONSTRAINT Constr"),
             workers=12, timeout=900, need=()):
         tl, summ = core.gen_replay("%s_%s" % (self.prop, name), base, consts, list(cfg), replayer, rargs,
@@ -128,7 +150,7 @@ class Check:
             v = core.validate_trace("%s_%s_%d" % (self.prop, name, i), trace_spec, out, timeout=timeout, consts=consts, view=view, spec=spec, report=report)
             return i, out, seed, summ, v
 
-        tot_events, tot_states, nrej = 0, 0, 0
+        tot_events, tot_states, nrej, ndiv = 0, 0, 0, 0
         with cf.ThreadPoolExecutor(max_workers=par) as ex:
             for i, out, seed, summ, v in ex.map(one, range(files)):
                 tot_events += summ["events"]
@@ -140,6 +162,13 @@ class Check:
                 for p in summ.get("panics", []):
                     self.violation(name, p["what"], {"kind": "panic", "recorder": recorder, "seed": seed, "profile": profile,
                                                      "history": p.get("history"), "cfg": p.get("cfg"), "step": p.get("step")})
+                if v.get("impl_diverged"):
+                    # not a property violation: the implementation-shaped model (BookImpl.tla) no longer describes the
+                    # code's internals (entry keys); the refinement evidence is stale until the model is brought up to date
+                    ndiv += 1
+                    if ndiv == 1:
+                        log("[%s] NOTE: BookImpl.tla no longer matches the code's internals (%s at event %s); no property is affected" % (
+                            name, v["impl_diverged"].get("why"), v["impl_diverged"].get("at")))
                 if not v["accepted"]:
                     nrej += 1
                     rj = v["reject"] or {}
@@ -156,7 +185,7 @@ class Check:
         self.transitions += tot_states
         self.traces += files * runs
         self.stages.append({"stage": name, "kind": "record-validate", "trace_files": files, "runs": files * runs,
-                            "events_validated": tot_events, "rejected": nrej, "wall_s": round(time.time() - t0, 1),
+                            "events_validated": tot_events, "rejected": nrej, "impl_model_diverged_files": ndiv, "wall_s": round(time.time() - t0, 1),
                             "profile": profile})
         log("[%s] record-validate: %d runs, %d events recorded from the real code, %d files rejected by TLC (%.1fs)" % (
             name, files * runs, tot_events, nrej, time.time() - t0))
